@@ -1,10 +1,19 @@
 #!/usr/bin/env python3
-"""Prints the table of independently seeded changes and what catches them (from seeded/*/meta.json)."""
+"""Prints the table of independently seeded changes and what catches them (from seeded/*/meta.json).
+The seeding agent filed each change under one property ("filed under"); the last column lists every
+quick check that was run against it and reported a VIOLATION."""
 import glob, json, os
 rows = []
+n = caught = 0
 for f in sorted(glob.glob(os.path.join(os.path.dirname(os.path.dirname(os.path.abspath(__file__))), "seeded", "*", "meta.json"))):
     m = json.load(open(f))
-    v = ", ".join("%s:%s" % (k, r["verdict"]) for k, r in m.get("checks_quick", {}).items())
-    rows.append("| %s | %s | %s | %s |" % (m["property"], m["name"], "yes" if m.get("confirmed") else "no", v))
-print("| property | change | confirmed | quick tier at confirmation |\n|---|---|---|---|")
+    cq = m.get("checks_quick", {})
+    by = [k for k, r in cq.items() if r["verdict"] == "CAUGHT"]
+    other = [k + ":" + r["verdict"].lower() for k, r in cq.items() if r["verdict"] != "CAUGHT"]
+    n += 1
+    caught += 1 if by else 0
+    rows.append("| %s | %s | %s | %s | %s |" % (m["property"], m["name"], "yes" if m.get("confirmed") else "no",
+                                                 ", ".join(by) if by else "**none**", ", ".join(other)))
+print("| filed under | change | confirmed | caught by (quick tier) | also run |\n|---|---|---|---|---|")
 print("\n".join(rows))
+print("\n%d changes, %d caught by at least one quick check." % (n, caught))
